@@ -345,7 +345,24 @@ class Runner:
                 r0 = self.execute_iso(v["history"])
                 if not any(x["class"] == vclass for x in r0["violations"]):
                     if not r0["violations"]:
-                        raise core.HarnessError("%s violation %s (history %d) did not reproduce in a fresh process" % (PROP, vclass, v["index"]))
+                        # Not reproducible from the history alone: the outcome depends on what the process did before (typical
+                        # for memory misuse in the code under test - use after free, uninitialised reads).  The batch, re-run
+                        # from its start in a fresh process, is then the replay unit.
+                        frm = (v["index"] // per) * per
+                        cnt_to = v["index"] - frm + 1
+                        rb = self.iso("batch_entry", seed, frm, cnt_to, None)
+                        hit = None
+                        if isinstance(rb, dict) and "crashed" not in rb:
+                            hit = next((x for x in rb["violations"] if x["index"] == v["index"]), None)
+                        if hit is None:
+                            raise core.HarnessError("%s violation %s (history %d) did not reproduce in a fresh process, neither alone nor as part of its batch" % (PROP, vclass, v["index"]))
+                        rep = {"property": PROP, "batch": [seed, frm, cnt_to], "index": v["index"], "violation": hit["violations"][0],
+                               "history": v["history"], "note": "reproduces only as part of its batch (process-history dependent)",
+                               "how_to_replay": "./check %s --replay <this file>" % PROP}
+                        path = core.save_replay(PROP, "%s-%d-batch-%s" % (seed, v["index"], vclass.replace("/", "_")[:40]), rep)
+                        self.log("[%s] violation %s at history %d reproduces only as part of its batch: %s" % (PROP, vclass, v["index"], path))
+                        new_violations.append(path)
+                        continue
                     # the same history shows a violation of another class in a fresh process (e.g. a wall-clock "hang"
                     # guard firing or not under load): report what the fresh process shows
                     vclass = r0["violations"][0]["class"]
@@ -434,6 +451,14 @@ class Runner:
     def replay(self, path):
         with open(path) as f:
             h = json.load(f)
+        if h.get("batch"):
+            seed, frm, cnt_to = h["batch"]
+            rb = self.iso("batch_entry", seed, frm, cnt_to, None)
+            if isinstance(rb, dict) and ("crashed" in rb or any(x["index"] == h["index"] for x in rb["violations"])):
+                print("VIOLATION property=%s replay=%s class=%s (batch replay)" % (self.mod.PROP, path, (h.get("violation") or {}).get("class")))
+                sys.exit(1)
+            print("OK replay passes")
+            sys.exit(0)
         if h.get("aux"):
             a = self.iso("aux_one_entry", h)
             done2, _ = core.fanout_isolated("sim.sessions", "aux_one_entry", [(self.modname, self.cache, self.pkgkind, h)], nproc=1, env=self.mod.AUX_ENV)
